@@ -69,7 +69,7 @@ def gen_set(rng, tag):
 
 def cases(ctx):
     rng = ctx.rng('c19')
-    for i in range(ctx.budget(4000, 300000)):
+    for i in range(ctx.budget(12000, 400000)):
         spec = gen_set(rng, f'S{ctx.shard}.{i}')
         if rng.random() < 0.5:
             yield {'op': 'merge', 'set': spec}
